@@ -671,7 +671,7 @@ def inject(ctx):
         for op in cf.block_operands(bi):
             if op.get('k') == 'Const' and (op.get('text') or '').startswith('b"') and '_' in op['text']:
                 fs = op['text']
-    ctx.ob(['C07'], 'R-SLP', 'C07|forwarding-body', okb and len(ren) == 1 and fs is not None,
+    ctx.ob(['C07', 'C04'], 'R-SLP', 'C07|forwarding-body', okb and len(ren) == 1 and fs is not None,
            'an injected function forwards to field <base field>.<original name>; on a name clash it is renamed `<base>_<name>` (format %s)' % fs, loc(cf.span))
     # everything else (visibility, docs, arguments, return type, convention) is the base function's own: the pushed value is a
     # whole clone of the element, and only its name and body are overwritten
